@@ -50,3 +50,51 @@ Lemma tie_bytes_compare : TIE_bytes_compare =
    (2, "return(1)");
    (0, "return(ret)")].
 Proof. reflexivity. Qed.
+
+(* libmy/ubuf.h: whole file *)
+Lemma tie_ubuf_h : TIE_ubuf_h =
+  [(0, "#ifndefMY_UBUF_H");
+   (0, "#defineMY_UBUF_H");
+   (0, "#include<stdarg.h>");
+   (0, "#include<stdbool.h>");
+   (0, "#include<stdint.h>");
+   (0, "#include<stdio.h>");
+   (0, "#include<stdlib.h>");
+   (0, "#include<string.h>");
+   (0, "#include""vector.h""");
+   (0, "VECTOR_GENERATE(ubuf,uint8_t)");
+   (0, "staticinlineubuf*ubuf_new(void)");
+   (1, "return(ubuf_init(64))");
+   (0, "staticinlineubuf*ubuf_dup_cstr(constchar*s)");
+   (1, "size_tlen=strlen(s)");
+   (1, "ubuf*u=ubuf_init(len+1)");
+   (1, "ubuf_append(u,(constuint8_t*)s,len)");
+   (1, "return(u)");
+   (0, "staticinlinevoidubuf_add_cstr(ubuf*u,constchar*s)");
+   (1, "if(ubuf_size(u)>0&&ubuf_value(u,ubuf_size(u)-1)=='\x00')ubuf_clip(u,ubuf_size(u)-1)");
+   (1, "ubuf_append(u,(constuint8_t*)s,strlen(s))");
+   (0, "staticinlinevoidubuf_cterm(ubuf*u)");
+   (1, "if(ubuf_size(u)==0||(ubuf_size(u)>0&&ubuf_value(u,ubuf_size(u)-1)!='\x00'))");
+   (2, "ubuf_append(u,(constuint8_t*)""\x00"",1)");
+   (0, "staticinlinechar*ubuf_cstr(ubuf*u)");
+   (1, "ubuf_cterm(u)");
+   (1, "return((char*)ubuf_data(u))");
+   (0, "staticinlinevoidubuf_add_fmt(ubuf*u,constchar*fmt,...)");
+   (1, "va_listargs,args_copy");
+   (1, "intstatus,needed");
+   (1, "if(ubuf_size(u)>0&&ubuf_value(u,ubuf_size(u)-1)=='\x00')ubuf_clip(u,ubuf_size(u)-1)");
+   (1, "va_start(args,fmt)");
+   (1, "va_copy(args_copy,args)");
+   (1, "needed=vsnprintf(NULL,0,fmt,args_copy)");
+   (1, "assert(needed>=0)");
+   (1, "va_end(args_copy)");
+   (1, "ubuf_reserve(u,ubuf_size(u)+needed+1)");
+   (1, "status=vsnprintf((char*)ubuf_ptr(u),needed+1,fmt,args)");
+   (1, "assert(status>=0)");
+   (1, "ubuf_advance(u,needed)");
+   (1, "va_end(args)");
+   (0, "staticinlinevoidubuf_rstrip(ubuf*u,chars)");
+   (1, "if(ubuf_size(u)>0&&ubuf_value(u,ubuf_size(u)-1)==((uint8_t)s))");
+   (2, "ubuf_clip(u,ubuf_size(u)-1)");
+   (0, "#endif")].
+Proof. reflexivity. Qed.
